@@ -190,18 +190,21 @@ func GenOps(s *ast.Schema, w *World, K int, kinds ...ast.Operation) []Case {
 	for _, k := range kinds {
 		switch k {
 		case ast.Query:
-			for _, x := range g.gen("Query", K, 4) {
+			if s.Query == nil {
+				continue
+			}
+			for _, x := range g.gen(s.Query.Name, K, 4) {
 				ops = append(ops, "{ "+x.s+" }")
 			}
 		case ast.Mutation:
 			if s.Mutation != nil {
-				for _, x := range g.gen("Mutation", K, 4) {
+				for _, x := range g.gen(s.Mutation.Name, K, 4) {
 					ops = append(ops, "mutation { "+x.s+" }")
 				}
 			}
 		case ast.Subscription:
 			if s.Subscription != nil {
-				for _, x := range g.gen("Subscription", K, 4) {
+				for _, x := range g.gen(s.Subscription.Name, K, 4) {
 					// a subscription has exactly one root field
 					if strings.Count(topLevel(x.s), "\x00") == 0 {
 						ops = append(ops, "subscription { "+x.s+" }")
@@ -265,7 +268,7 @@ func printDoc(d *ast.QueryDocument) string {
 }
 
 var DecorKinds = []string{"alias", "aliasSib", "aliasParent", "aliasId", "idAliased", "typename", "fragT", "fragN", "fragAbs", "id",
-	"incLit", "skipLitFalse", "skipVar", "incVar", "argVar", "argVarDefault", "argVarNull", "varTwice", "dup", "named", "namedTwice", "opName"}
+	"incLit", "skipLitFalse", "skipVar", "incVar", "argVar", "argVarDefault", "argVarNull", "varTwice", "dup", "dupFirst", "named", "namedTwice", "opName"}
 
 // Decorate returns all single-decoration variants of q.
 func Decorate(s *ast.Schema, q string) []Case {
@@ -429,6 +432,10 @@ func Decorate(s *ast.Schema, q string) []Case {
 				}
 			case "dup":
 				ok = appendSibling(&op.SelectionSet, f, func(c *ast.Field) { c.Alias = "b" })
+			case "dupFirst":
+				// the aliased copy comes first, the plain field after it
+				f.Alias = "b"
+				ok = appendSibling(&op.SelectionSet, f, func(c *ast.Field) { c.Alias = c.Name })
 			case "named", "namedTwice":
 				if !hasSel || ft.Kind != ast.Object {
 					ok = false
